@@ -30,6 +30,7 @@ fn gens(tier: Tier) -> Vec<Gen> {
         Gen { name: "random", count: tier.pick(3_000, 300_000), exhaustive: false, run: run_random },
         Gen { name: "large", count: tier.pick(150, 5_000), exhaustive: false, run: run_large },
         Gen { name: "redirect-then-pause", count: (5 * 3 * 4 * 2) as u64, exhaustive: true, run: run_redirect_pause },
+        Gen { name: "text_reader-everyoffset", count: text_reader_count(), exhaustive: true, run: run_text_reader },
         Gen { name: "concurrent-heads", count: 6, exhaustive: true, run: run_concurrent_heads },
         Gen { name: "nobody", count: 48, exhaustive: true, run: run_nobody },
         Gen { name: "both-framings", count: 2 * 3 * 14, exhaustive: true, run: run_both_framings },
@@ -555,4 +556,92 @@ fn run_concurrent_heads(ctx: &mut Ctx, _rng: &mut Rng, index: u64) {
         break;
     }
     ctx.nontrivial(format!("cc{index}").as_bytes());
+}
+
+// ---- the streaming text reader hands out what has arrived as well (ASCII text, 1:1 in UTF-8) ---------
+
+const TEXT_PAYLOAD: &[u8] = b"The quick brown fox jumps over the lazy dog, twice over: the quick brown fox jumps over the lazy dog.";
+
+fn text_reader_wire(framing: Framing) -> crate::respgen::Built {
+    let sizes = if framing == Framing::Chunked { vec![10, 33, TEXT_PAYLOAD.len() - 43] } else { vec![] };
+    build_response("HTTP/1.1 200 OK", &[("Content-Type".into(), b"text/plain; charset=utf-8".to_vec())], framing, TEXT_PAYLOAD, &sizes, &[Default::default()], b"")
+}
+
+fn text_reader_count() -> u64 {
+    Framing::ALL.iter().map(|f| { let b = text_reader_wire(*f); (b.wire.len() - b.head_len + 1) as u64 * 5 }).sum()
+}
+
+fn run_text_reader(ctx: &mut Ctx, _rng: &mut Rng, index: u64) {
+    if crate::framework::miri_mode() {
+        ctx.gray();
+        return;
+    }
+    let mut idx = index;
+    let mut fi = 0;
+    loop {
+        let b = text_reader_wire(Framing::ALL[fi]);
+        let n = (b.wire.len() - b.head_len + 1) as u64 * 5;
+        if idx < n {
+            break;
+        }
+        idx -= n;
+        fi += 1;
+    }
+    let framing = Framing::ALL[fi];
+    let b = text_reader_wire(framing);
+    let buf_size = [1usize, 2, 3, 4, 64][(idx % 5) as usize];
+    let pause_at = b.head_len + (idx / 5) as usize;
+    let served = &b.wire[..pause_at];
+    let mut steps = if idx % 2 == 0 { Segmentation::Whole.apply(served) } else { Segmentation::Bytewise.apply(served) };
+    steps.push(Step::Pause);
+    let world = World::single(steps);
+    let served_body = &b.wire[b.head_len..pause_at];
+    let available = match framing {
+        Framing::Length => served_body.len().min(TEXT_PAYLOAD.len()),
+        Framing::Close => served_body.len(),
+        Framing::Chunked => chunked::decode(served_body).complete_chunks_len,
+    };
+    let resp = match attohttpc::get("http://origin.test/c19t").send() {
+        Ok(r) => r,
+        Err(e) => return ctx.violation("send-failed", format!("text reader: {e:?}")),
+    };
+    let mut r = resp.text_reader();
+    let mut buf = vec![0u8; buf_size];
+    let mut delivered: Vec<u8> = Vec::new();
+    let descr = |x: &str| format!("{x}; text_reader() with a {buf_size}-byte caller buffer, framing={} pause at body offset {} available={available}", framing.name(), pause_at - b.head_len);
+    ctx.count("text_reader_histories", 1);
+    // the decoder looks at the first three bytes for a byte order mark before it hands out anything
+    let judged = available >= 3;
+    while delivered.len() < available {
+        let res = r.read(&mut buf);
+        let blocked = world.trace(0).blocked_reads;
+        match res {
+            Ok(0) => {
+                ctx.violation(format!("premature-eof:text_reader:{}", framing.name()), descr(&format!("Ok(0) after {} bytes", delivered.len())));
+                return;
+            }
+            Ok(n) => {
+                delivered.extend_from_slice(&buf[..n]);
+                if blocked > 0 && delivered.len() <= available && judged {
+                    ctx.violation(format!("blocked-while-data-available:text_reader:{}", framing.name()), descr(&format!("a read that returned text had first asked the transport for bytes the server has not sent ({} delivered before it)", delivered.len() - n)));
+                    return;
+                }
+            }
+            Err(e) => {
+                if judged {
+                    ctx.violation(format!("blocked-while-data-available:text_reader:{}", framing.name()), descr(&format!("read failed/blocked ({e}) with {} of {available} available bytes delivered", delivered.len())));
+                } else {
+                    ctx.count("text_reader_blocked_on_bom_sniff_with_fewer_than_3_bytes", 1);
+                    ctx.gray();
+                }
+                return;
+            }
+        }
+    }
+    if delivered[..] != TEXT_PAYLOAD[..delivered.len().min(TEXT_PAYLOAD.len())] {
+        ctx.violation("delivered-bytes-differ", descr("text differs from the payload prefix"));
+    }
+    if available > 0 {
+        ctx.nontrivial(format!("tr{index}").as_bytes());
+    }
 }
